@@ -12,6 +12,12 @@ CHECKS = {
    text="Every history of one quorum call (n<=3 nodes, 5 behaviours per node, 5 quorum functions, 8 call variants, 4 cancel modes, every arrival order) is executed on the instrumented real library under the gomc scheduler; within each history every schedule up to the deviation bound is explored. The quorum-function log and the returned value are compared with a reference reply loop (pointer identity of the returned value, exact reply-set snapshots, no invocation after quorum, no overlap)."),
  "C02": dict(cat="model_checking", ref="5.2", tech="stateless model checking of the real code; at every quiescent point the call must have returned iff quorum / exhaustion / context end holds in the reference model",
    text="Same executions as C01 with the termination oracle: at every quiescent point of every explored schedule the call (or future) is done iff the reference model says quorum, exhaustion (also with zero targeted nodes) or context end; the outcome class and the error/reply counts of Incomplete are compared with the model; async Get is stable."),
+ "C14": dict(cat="model_checking", ref="5.14", engine="gomc-seq", tech="explicit-state BFS over API operation sequences on the real manager with a set-based reference model",
+   text="Breadth-first search over sequences of configuration-building operations (depth 2 quick / 3 thorough) over an alphabet with duplicate and hash-colliding addresses, equal IDs, unknown IDs and both map iteration orders; every transition is executed on the real code (successor = replay of the shortest path on a fresh manager + one operation), states are deduplicated on a canonical (pool, configurations) form, and membership, order, Size/Nodes/NodeIDs agreement, Equal, pooling by pointer identity, operand immutability and address preservation are compared with a Go-set reference model in every state.",
+   note="Trusted base: the BFS driver and the reference model in /verif/checks/c14.go; managers are created with WithNoConnect; map iteration order at the WithNodeMap range site is controlled through the instrumenter."),
+ "C19": dict(cat="model_checking", ref="5.19", engine="gomc-seq", tech="exhaustive small-scope enumeration of inputs to the real sorter against a lexicographic reference comparison",
+   text="Every slice of length 0..4 (5 thorough) over 8 node kinds (id x port x last error) crossed with every key sequence of length 1..3 over {ID, Port, LastNodeError} is sorted by the real OrderedBy(...).Sort and compared with the lexicographic reference order (permutation + adjacent pairs); each key is checked against the strict-weak-ordering axioms on all pairs and triples of kinds.",
+   note="Trusted base: the enumerator and reference comparison in /verif/checks/c19.go; last errors are set through an accessor injected by overlay."),
 }
 
 NOT_YET = {}
